@@ -85,6 +85,7 @@ def g_no_alias_or_nocache_in_minimal(h):
 def compare(h, mb, strict_ws=True):
     """Projected observables per build: exit status, executed multiset, state of every declared output."""
     diffs = []
+    after_ff = False
     for bi, b in enumerate(h.builds):
         if bi >= len(mb):
             diffs.append((bi, "model has no build %d" % bi)); break
@@ -94,7 +95,16 @@ def compare(h, mb, strict_ws=True):
         if (b["rc"] == 0) != m["ok"]:
             diffs.append((bi, "exit status: impl rc=%s model ok=%s" % (b["rc"], m["ok"])))
         if b["cfg"].get("ff"):
-            continue      # which targets had started when fail-fast fired is schedule dependent
+            after_ff = True
+            continue      # which targets had started (or were killed half-way) when fail-fast fired is schedule dependent
+        if after_ff:
+            # what a fail-fast build left behind (which targets completed and were cached) is schedule dependent too:
+            # later builds are compared on exit status and, when successful, on the bytes of the outputs
+            if b["rc"] == 0 and m["ok"] and strict_ws:
+                for p, s in sorted(b["ws"].items()):
+                    if bl.norm_state(s) != bl.norm_state(m["ws"].get(p, "A")):
+                        diffs.append((bi, "output %s: impl %s model %s" % (p, s[:60], m["ws"].get(p, "A")[:60])))
+            continue
         if sorted(b["starts"]) != m["exec"]:
             diffs.append((bi, "executed: impl %s model %s" % (sorted(b["starts"]), m["exec"])))
         if strict_ws:
